@@ -14,15 +14,15 @@ package main
 // there is an error; main hands cobra's error to it.
 //@ func logf@loud
 //@   props C18
-//@   always-calls Fprintf
+//@   always-calls Fprintf|Fprintln|Fprint|Println
 //@ func abort
 //@   props C18
-//@   always-calls logf
-//@   always-calls os.Exit
+//@   always-calls logf|Fprintf|Fprintln|Fprint|Println
+//@   always-calls os.Exit|Fatal
 //@   arg-from os.Exit 0 const:nonzero
 //@ func abortWithErr
 //@   props C18
-//@   guarded abort when-nonnil err
+//@   guarded abort|os.Exit|Fatal when-nonnil err
 //@ func main@loud
 //@   props C18
 //@   always-calls abortWithErr
